@@ -751,6 +751,28 @@ func (ex *Exec) evalCall(env *SpecEnv, e *SExpr) Val {
 		case "seenkey":
 			sv := ex.rangeSeen(env)
 			return bval(Select(sv.L[0], ev(0).L[0]))
+		case "calls":
+			if args[0].Op != "str" {
+				sfail("calls(): string literal expected")
+			}
+			c := ex.callCells[args[0].Name]
+			if c == nil {
+				sfail("calls(%q): counter not registered", args[0].Name)
+			}
+			if v, ok := env.st.cells[c]; ok {
+				return Val{T: types.Typ[types.Int], L: v.L}
+			}
+			return Val{T: types.Typ[types.Int], L: []*Term{Int(0)}}
+		case "deref":
+			v := ev(0)
+			if v.Loc != nil {
+				return ex.load(env.st, v.Loc)
+			}
+			et := derefType(v.T)
+			if et == nil {
+				sfail("deref of non-pointer %v", v.T)
+			}
+			return ex.load(env.st, &Loc{Kind: locField, Base: v.S(), Obj: et, T: et})
 		case "arr":
 			v := ev(0)
 			return ival(v.L[0])
